@@ -64,6 +64,7 @@ class Seg:
         "count_u",
         "poll_true",
         "classifies",
+        "t_decide",
     )
 
 
@@ -92,6 +93,8 @@ class View:
                 k = s.out[0]
                 s.klass = None
                 s.cause = None
+                if k == "exc_same":
+                    k = "exc"
                 if k == "res" and not rc_on:
                     k = "ok"
                 if k == "sp" and s.out[1] in ("nested_open", "timeout"):
@@ -99,6 +102,7 @@ class View:
                     s.klass = s.out[2] if len(s.out) > 2 and s.out[2] else ("UNKNOWN" if s.out[1] == "nested_open" else "TRANSIENT")
                 elif k in ("exc", "res"):
                     s.klass = s.out[1]
+                s.t_decide = s.t_fail
                 s.kind = k
                 if k == "exc":
                     s.cause = "exception"
@@ -156,6 +160,8 @@ class View:
                 cur.sleeps.append(ev)
             elif t in ("classify", "rclassify"):
                 cur.classifies.append(ev)
+            elif t == "srec" and ev[1] == "failure":
+                cur.t_decide = max(cur.t_decide, ev[4])  # the engine re-reads the clock after strategy.record_failure
         self.nops = len(self.segs)
         self.pre_poll_true = any(ev[0] == "poll" and ev[2] for ev in self.pre)
         self.pre_terminals = [ev for ev in self.pre if ev[0] == "metric" and ev[1] in TERMINALS]
@@ -224,9 +230,9 @@ class View:
         if aop is not None and s.i >= aop:
             false.append("abort-requested")  # the abort flag was raised while this attempt was in flight
         band = False
-        if s.t_fail >= self.deadline:
+        if s.t_decide >= self.deadline:
             false.append("deadline")
-        elif s.t_fail > self.deadline - TOL:
+        elif s.t_decide > self.deadline - TOL:
             band = True
         if false:
             return False, false
